@@ -1,9 +1,90 @@
-import StraxModel.Driver.Parse
+import StraxModel.Driver.C07
+import StraxModel.Model.Storage
+import StraxModel.Generated.GetSplits
 namespace Strax.Driver
-open Strax
+open Strax Strax.Storage
 
-/-- ops of property C03 (stub: no ops yet) -/
+/-! canonical text of metadata / files (same format as `checks/props/c03.py`) -/
+
+def showIntOpt : Option Int → String
+  | none => "-"
+  | some v => toString v
+
+/-- the `subruns` dict is printed in the order it has in the json file (`sort_keys=True`) -/
+def showInfo (c : ChunkInfo) : String :=
+  "/".intercalate [toString c.i, toString c.n, toString c.start, toString c.stop, showStrOpt c.runId,
+    showRunsOpt (c.subruns.map jsonRuns), showIntOpt c.firstTime, showIntOpt c.firstEnd, showIntOpt c.lastTime,
+    showIntOpt c.lastEnd, showStrOpt c.filename]
+
+def showB (b : Bool) : String := if b then "1" else "0"
+
+def showMeta (m : Meta) : String :=
+  s!"start={showIntOpt m.start} end={showIntOpt m.stop} we={showB m.writingEnded} exc={showB m.exception} chunks=" ++
+  (if m.chunks.isEmpty then "-" else ";".intercalate (m.chunks.map showInfo))
+
+def showFiles (fs : Files) : String :=
+  if fs.isEmpty then "-" else ";".intercalate (fs.map fun p => s!"{p.1}={showRows p.2}")
+
+def modifyAt (l : List α) (k : Nat) (f : α → α) : List α :=
+  l.zipIdx.map fun p => if p.2 = k then f p.1 else p.1
+
+/-- tampering with what the saver left behind, to reach the rejecting branches of the loader;
+`k` is taken modulo the number of chunk infos. -/
+def tamper (spec : String) (m : Meta) (fs : Files) : Option (Meta × Files) :=
+  let len := m.chunks.length
+  let idx (k : Nat) : Nat := if len = 0 then 0 else k % len
+  match spec.splitOn ":" with
+  | ["none"] => some (m, fs)
+  | ["nochunks"] => some ({ m with chunks := [] }, fs)
+  | ["n", k, d] => do
+    let k ← k.toNat?; let d ← d.toInt?
+    pure ({ m with chunks := modifyAt m.chunks (idx k) fun c => { c with n := ((c.n : Int) + d).toNat } }, fs)
+  | ["rm", k] => do
+    let k ← k.toNat?
+    match (m.chunks[idx k]?).bind (·.filename) with
+    | none => pure (m, fs)
+    | some fn => pure (m, fs.filter (fun p => p.1 != fn))
+  | ["nofn", k] => do
+    let k ← k.toNat?
+    pure ({ m with chunks := modifyAt m.chunks (idx k) fun c => { c with filename := none } }, fs)
+  | ["rid", k, r] => do
+    let k ← k.toNat?
+    pure ({ m with chunks := modifyAt m.chunks (idx k) fun c => { c with runId := parseStrOpt r } }, fs)
+  | ["swap", j, k] => do
+    let j ← j.toNat?; let k ← k.toNat?
+    let fj := (m.chunks[idx j]?).bind (·.filename)
+    let fk := (m.chunks[idx k]?).bind (·.filename)
+    let cs := modifyAt m.chunks (idx j) fun c => { c with filename := fk }
+    let cs := if idx j = idx k then m.chunks else modifyAt cs (idx k) fun c => { c with filename := fj }
+    pure ({ m with chunks := cs }, fs)
+  | ["range", k, ds, de] => do
+    let k ← k.toNat?; let ds ← ds.toInt?; let de ← de.toInt?
+    pure ({ m with chunks := modifyAt m.chunks (idx k) fun c => { c with start := c.start + ds, stop := c.stop + de } }, fs)
+  | _ => none
+
+/-- ops of property C03.
+`c03.rt <rechunk> <tamper> <runId> <dataType> <kind> <target> <pfx> <rawchunk>*` :
+save the chunks through `save_from`, tamper, load everything back.
+ ok  → `ok <meta> ## <files> ## <ok chunks… | err Kind> ## law=<0|1> stor=<0|1>`
+ err → `err <Kind> <meta> ## <files>` (what the failed saver left behind) -/
 def handleC03 : List String → Option String
+  | "c03.rt" :: rechunk :: tmp :: rid :: dt :: kind :: target :: pfx :: cs => do
+    let re ← parseBool rechunk
+    let tg ← target.toNat?
+    let cs ← cs.mapM parseRawChunk
+    let hdr : Header := { runId := rid, dataType := dt, kind := kind, target := tg, pfx := pfx }
+    match rawChunksToChunks cs with
+    | .error e => pure s!"err-construct {e.name}"
+    | .ok cs =>
+      let (sv, e) := saveFrom Generated.getSplitsArgmin0 re hdr cs
+      match e with
+      | some e => pure s!"err {e.name} {showMeta sv.md} ## {showFiles sv.files}"
+      | none =>
+        let (m, fs) ← tamper tmp sv.md sv.files
+        let loaded := showExcept showChunks (loadAll m fs)
+        let law := lawAbidingB cs
+        let stor := cs.all (storableB rid)
+        pure s!"ok {showMeta sv.md} ## {showFiles sv.files} ## {loaded} ## law={showB law} stor={showB stor}"
   | _ => none
 
 end Strax.Driver
